@@ -280,12 +280,15 @@ Proof.
   unfold close_proposal. rewrite (closing_guard_false _ _ HC).
   rewrite balance_spec by (repeat split; lia).
   unfold final_local, final_remote, payer_gross.
-  destruct (payer_of v r);
-    match goal with |- context [if ?a || ?b then _ else _] =>
-      destruct a eqn:Ea, b eqn:Eb; cbn end;
-    try (split; [lia|intros; reflexivity]);
-    try (split; [intros; lia|intros; reflexivity]);
-    try (destruct (tx_sane _); split; [discriminate|lia]).
+  destruct (payer_of v r); rewrite ?Z.sub_0_r.
+  - destruct (gross_local v - r_fee r <? 0) eqn:Ea; cbn [orb].
+    + split; [intros _; lia|reflexivity].
+    + destruct (gross_remote v <? 0) eqn:Eb; [lia|].
+      destruct (tx_sane _); (split; [discriminate|lia]).
+  - destruct (gross_local v <? 0) eqn:Ea; [lia|]. cbn [orb].
+    destruct (gross_remote v - r_fee r <? 0) eqn:Eb.
+    + split; [intros _; lia|reflexivity].
+    + destruct (tx_sane _); (split; [discriminate|lia]).
 Qed.
 
 Definition local_out (v : chan_view) (r : close_req) : list txout :=
@@ -349,6 +352,11 @@ Proof.
   destruct (o_sequence opts); [destruct op|]; cbn; lia.
 Qed.
 
+Lemma sum_outs_app l l' : sum_outs (l ++ l') = sum_outs l + sum_outs l'.
+Proof.
+  unfold sum_outs. induction l as [|x l IH]; cbn [fold_right app]; lia.
+Qed.
+
 Lemma conservation v r d b capacity :
   in_range v r ->
   v_local_msat v + v_remote_msat v + 1000 * opener_credit v = 1000 * capacity ->
@@ -364,8 +372,7 @@ Proof.
   rewrite (sum_outs_perm _ _ HPerm).
   assert (HS : sum_outs (local_out v r ++ remote_out v r)
                = sum_outs (local_out v r) + sum_outs (remote_out v r)).
-  { generalize (remote_out v r). induction (local_out v r); intros; cbn in *; [lia|].
-    rewrite IHl. lia. }
+  { apply sum_outs_app. }
   rewrite HS.
   pose proof (Permutation_length HPerm) as HLen. rewrite app_length in HLen.
   assert (HT : final_local v r + final_remote v r + r_fee r
@@ -398,3 +405,404 @@ Proof.
   rewrite HV. split; [lia|].
   intros Hm. lia.
 Qed.
+
+(* ------------------------------------------------------------------ *)
+(* legacy fee negotiation                                              *)
+
+Definition fee_ok (x : Z) : Prop := 100 <= x < 2 ^ 60.
+
+Lemma mul64_small_3 x : 0 <= x < 2 ^ 60 -> mul64 x 3 = x * 3.
+Proof.
+  intros H. unfold mul64. apply w64_id. rewrite two63_eq.
+  change (2 ^ 63) with (8 * 2 ^ 60). lia.
+Qed.
+
+Lemma mul64_small_1 x : 0 <= x < 2 ^ 60 -> mul64 x 1 = x.
+Proof.
+  intros H. unfold mul64. rewrite Z.mul_1_r. apply w64_id. rewrite two63_eq.
+  change (2 ^ 63) with (8 * 2 ^ 60). lia.
+Qed.
+
+Lemma quot_div x k : 0 <= x -> 0 < k -> Z.quot x k = x / k.
+Proof. intros. apply Z.quot_div_nonneg; lia. Qed.
+
+Lemma ratchet_up x : 0 <= x < 2 ^ 60 -> ratchet_fee x true = x + x / 10.
+Proof.
+  intros H. unfold ratchet_fee, div64. rewrite mul64_small_1 by lia.
+  rewrite quot_div by lia.
+  assert (0 <= x / 10 <= x) by (split; [apply Z.div_pos; lia|apply Z.div_le_upper_bound; lia]).
+  unfold add64. apply w64_id. rewrite two63_eq. change (2 ^ 63) with (8 * 2 ^ 60). lia.
+Qed.
+
+Lemma ratchet_down x : 0 <= x < 2 ^ 60 -> ratchet_fee x false = x - x / 10.
+Proof.
+  intros H. unfold ratchet_fee, div64. rewrite mul64_small_1 by lia.
+  rewrite quot_div by lia.
+  assert (0 <= x / 10 <= x) by (split; [apply Z.div_pos; lia|apply Z.div_le_upper_bound; lia]).
+  unfold sub64. apply w64_id. rewrite two63_eq. change (2 ^ 63) with (8 * 2 ^ 60). lia.
+Qed.
+
+Lemma range_spec l r :
+  0 <= l < 2 ^ 60 ->
+  fee_in_acceptable_range l r =
+  if l <? r then r <=? l + l * 3 / 10 else l - l * 3 / 10 <=? r.
+Proof.
+  intros H. unfold fee_in_acceptable_range, div64. rewrite mul64_small_3 by lia.
+  rewrite quot_div by lia.
+  assert (0 <= l * 3 / 10 <= l)
+    by (split; [apply Z.div_pos; lia|apply Z.div_le_upper_bound; lia]).
+  unfold add64, sub64. rewrite !w64_id; auto;
+    rewrite two63_eq; change (2 ^ 63) with (8 * 2 ^ 60); lia.
+Qed.
+
+(* the answer to an offer [y] when our last offer was [x]: accept it, or move
+   10% towards it without reaching it *)
+Lemma compromise_cases ideal x y :
+  fee_ok x -> fee_ok y ->
+  let p := calc_compromise_fee ideal x y in
+  p = y \/
+  (x < y /\ p = x + x / 10 /\ x + x * 3 / 10 < y) \/
+  (y < x /\ p = x - x / 10 /\ y < x - x * 3 / 10).
+Proof.
+  intros [Hx1 Hx2] [Hy1 Hy2]. cbv zeta. unfold calc_compromise_fee.
+  destruct (ideal =? y) eqn:E0; [left; cbn; lia|].
+  destruct (x =? 0) eqn:E1; [lia|]. cbn [orb].
+  destruct (y =? x) eqn:E2; [left; lia|].
+  rewrite range_spec by lia.
+  destruct (y <? x) eqn:E3.
+  - assert (E4 : (x <? y) = false) by lia. rewrite E4.
+    destruct (x - x * 3 / 10 <=? y) eqn:E5; [left; reflexivity|].
+    right; right. rewrite ratchet_down by lia. lia.
+  - assert (E4 : (x <? y) = true) by lia. rewrite E4.
+    destruct (y <=? x + x * 3 / 10) eqn:E5; [left; reflexivity|].
+    right; left. rewrite ratchet_up by lia. lia.
+Qed.
+
+(* one ratchet step shrinks the ratio max/min of the two standing offers by
+   at least 1000/1091 (this is where fees >= 100 sat are needed: below 10 sat
+   the step is 0, see ratchet_stuck) *)
+Lemma ratchet_progress_up x y :
+  100 <= x -> x < y -> x + x * 3 / 10 < y ->
+  let x' := x + x / 10 in
+  x < x' < y /\ 1091 * x <= 1000 * x'.
+Proof.
+  intros. cbv zeta.
+  pose proof (Z.div_mod x 10 ltac:(lia)). pose proof (Z.mod_pos_bound x 10 ltac:(lia)).
+  pose proof (Z.div_mod (x * 3) 10 ltac:(lia)). pose proof (Z.mod_pos_bound (x * 3) 10 ltac:(lia)).
+  lia.
+Qed.
+
+Lemma ratchet_progress_down x y :
+  100 <= y -> y < x -> y < x - x * 3 / 10 ->
+  let x' := x - x / 10 in
+  y < x' < x /\ 1091 * x' <= 1000 * x.
+Proof.
+  intros. cbv zeta.
+  pose proof (Z.div_mod x 10 ltac:(lia)). pose proof (Z.mod_pos_bound x 10 ltac:(lia)).
+  pose proof (Z.div_mod (x * 3) 10 ltac:(lia)). pose proof (Z.mod_pos_bound (x * 3) 10 ltac:(lia)).
+  lia.
+Qed.
+
+(* offers within 29% of each other are accepted *)
+Lemma compromise_accepts ideal x y :
+  fee_ok x -> fee_ok y ->
+  100 * Z.max x y <= 129 * Z.min x y ->
+  calc_compromise_fee ideal x y = y.
+Proof.
+  intros Hx Hy Hc.
+  destruct (compromise_cases ideal x y Hx Hy) as [H|[(H1 & _ & H3)|(H1 & _ & H3)]]; auto;
+    exfalso; destruct Hx, Hy;
+    pose proof (Z.div_mod (x * 3) 10 ltac:(lia));
+    pose proof (Z.mod_pos_bound (x * 3) 10 ltac:(lia)); lia.
+Qed.
+
+(* potential: [close_enough n lo hi] says that n ratchet steps certainly
+   bring the offers within 29% *)
+Definition close_enough (n : nat) (lo hi : Z) : Prop :=
+  100 * hi * 1000 ^ Z.of_nat n <= 129 * lo * 1091 ^ Z.of_nat n.
+
+Lemma close_enough_step n lo hi lo' hi' :
+  0 < lo -> 0 < lo' -> 0 < hi -> 0 < hi' ->
+  1091 * hi' * lo <= 1000 * hi * lo' ->
+  close_enough (S n) lo hi -> close_enough n lo' hi'.
+Proof.
+  unfold close_enough. intros Hlo Hlo' Hhi Hhi' H1 H2.
+  rewrite Nat2Z.inj_succ, !Z.pow_succ_r in H2 by lia.
+  set (A := 1000 ^ Z.of_nat n) in *. set (B := 1091 ^ Z.of_nat n) in *.
+  assert (HA : 0 < A) by (apply Z.pow_pos_nonneg; lia).
+  assert (HB : 0 < B) by (apply Z.pow_pos_nonneg; lia).
+  (* multiply the goal by 1091 * lo > 0 *)
+  apply Z.mul_le_mono_pos_r with (p := 1091 * lo); [lia|].
+  assert (E1 : 100 * hi' * A * (1091 * lo) = 100 * A * (1091 * hi' * lo)) by ring.
+  assert (E2 : 129 * lo' * B * (1091 * lo) = lo' * (129 * lo * (1091 * B))) by ring.
+  rewrite E1, E2.
+  assert (S1 : 100 * A * (1091 * hi' * lo) <= 100 * A * (1000 * hi * lo'))
+    by (apply Z.mul_le_mono_nonneg_l; lia).
+  assert (S2 : lo' * (100 * hi * (1000 * A)) <= lo' * (129 * lo * (1091 * B)))
+    by (apply Z.mul_le_mono_nonneg_l; lia).
+  assert (E3 : 100 * A * (1000 * hi * lo') = lo' * (100 * hi * (1000 * A))) by ring.
+  lia.
+Qed.
+
+Lemma mem_fee_In f l : mem_fee f l = true <-> In f l.
+Proof.
+  unfold mem_fee. rewrite existsb_exists. split.
+  - intros (x & Hx & E). apply Z.eqb_eq in E. subst. auto.
+  - intros H. exists f. split; auto. apply Z.eqb_refl.
+Qed.
+
+Lemma propose_ok c fee :
+  fee <= n_afford c ->
+  exists c1, propose c fee = Some c1 /\
+    n_state c1 = n_state c /\ n_initiator c1 = n_initiator c /\
+    n_taproot c1 = n_taproot c /\ n_ideal c1 = n_ideal c /\
+    n_max_fee c1 = n_max_fee c /\ n_last c1 = fee /\ In fee (n_prior c1) /\
+    (forall g, In g (n_prior c) -> In g (n_prior c1)) /\
+    n_afford c1 = n_afford c /\ n_closed_fee c1 = n_closed_fee c.
+Proof.
+  intros H. unfold propose.
+  assert (E : (fee <=? n_afford c) = true) by lia. rewrite E.
+  eexists. split; [reflexivity|]. cbn. repeat split; auto.
+  - destruct (mem_fee fee (n_prior c)) eqn:M; [apply mem_fee_In; auto|left; auto].
+  - intros g Hg. destruct (mem_fee fee (n_prior c)); [auto|right; auto].
+Qed.
+
+(* what a non-taproot closer in the negotiation state does with an offer [y]
+   when its own last offer is [x] *)
+Inductive recv_result (c : closer) (x y : Z) : nerr + (closer * option Z) -> Prop :=
+| RAccept c1 :
+    n_state c1 = NFinished -> n_closed_fee c1 = Some y -> In y (n_prior c1) ->
+    n_taproot c1 = false -> n_initiator c1 = n_initiator c ->
+    recv_result c x y (inr (c1, Some y))
+| RRatchet c1 x' :
+    n_state c1 = NFeeNegotiation -> n_taproot c1 = false ->
+    n_initiator c1 = n_initiator c -> n_max_fee c1 = n_max_fee c ->
+    n_afford c1 = n_afford c -> n_last c1 = x' -> In x' (n_prior c1) ->
+    n_closed_fee c1 = n_closed_fee c ->
+    ((x < y /\ x' = x + x / 10 /\ x + x * 3 / 10 < y) \/
+     (y < x /\ x' = x - x / 10 /\ y < x - x * 3 / 10)) ->
+    recv_result c x y (inr (c1, Some x')).
+
+Lemma recv_cases c x y hi :
+  n_state c = NFeeNegotiation -> n_taproot c = false -> n_last c = x ->
+  fee_ok x -> fee_ok y -> x <= hi -> y <= hi ->
+  (n_initiator c = true -> hi <= n_max_fee c) -> hi <= n_afford c ->
+  recv_result c x y (receive_closing_signed c y).
+Proof.
+  intros Hs Ht Hl Hx Hy Hxh Hyh Hmax Haff.
+  unfold receive_closing_signed. rewrite Hs, Ht. cbn [andb negb].
+  destruct (mem_fee y (n_prior c)) eqn:M; cbn [negb].
+  - (* the offer is one we signed before *)
+    unfold finalize. apply RAccept; cbn; auto. apply mem_fee_In; auto.
+  - rewrite Hl.
+    pose proof (compromise_cases (n_ideal c) x y Hx Hy) as HC. cbv zeta in HC.
+    set (p := calc_compromise_fee (n_ideal c) x y) in *.
+    assert (Hp : p <= hi /\ 0 <= p).
+    { destruct Hx as [X1 X2], Hy as [Y1 Y2].
+      destruct HC as [K|[(K1 & K2 & K3)|(K1 & K2 & K3)]]; [lia| |].
+      - pose proof (ratchet_progress_up x y ltac:(lia) K1 K3) as K4. cbv zeta in K4. lia.
+      - pose proof (ratchet_progress_down x y ltac:(lia) K1 K3) as K4. cbv zeta in K4. lia. }
+    assert (Hg : (n_initiator c && (n_max_fee c <? p)) = false).
+    { destruct (n_initiator c); cbn; [|reflexivity]. specialize (Hmax eq_refl). lia. }
+    rewrite Hg.
+    destruct (propose_ok c p ltac:(lia)) as (c1 & -> & P1 & P2 & P3 & P4 & P5 & P6 & P7 & P8 & P9 & P10).
+    destruct (p =? y) eqn:E; cbn [negb].
+    + assert (p = y) by lia. subst p. unfold finalize.
+      apply RAccept; cbn; try congruence.
+    + destruct HC as [HC|HC]; [lia|].
+      apply RRatchet; try congruence.
+Qed.
+
+(* ---- the two-closer system ---- *)
+
+Definition mover (s : system) (t : bool) : closer := if t then sys_open s else sys_resp s.
+Definition other (s : system) (t : bool) : closer := if t then sys_resp s else sys_open s.
+
+(* mid-negotiation: offer [y] is in flight to the party selected by [t],
+   whose own last offer is [x] *)
+Record neg_inv (lo0 hi0 : Z) (s : system) (t : bool) (x y : Z) : Prop := mkInv {
+  inv_err : sys_err s = None;
+  inv_msg : sys_msg s = Some (t, y);
+  inv_io : n_initiator (sys_open s) = true;
+  inv_ir : n_initiator (sys_resp s) = false;
+  inv_to : n_taproot (sys_open s) = false;
+  inv_tr : n_taproot (sys_resp s) = false;
+  inv_so : n_state (sys_open s) = NFeeNegotiation;
+  inv_sr : n_state (sys_resp s) = NFeeNegotiation;
+  inv_last : n_last (mover s t) = x;
+  inv_olast : n_last (other s t) = y;
+  inv_prior : In y (n_prior (other s t));
+  inv_max : hi0 <= n_max_fee (sys_open s);
+  inv_ao : hi0 <= n_afford (sys_open s);
+  inv_ar : hi0 <= n_afford (sys_resp s);
+  inv_x : lo0 <= x <= hi0;
+  inv_y : lo0 <= y <= hi0;
+  inv_lo : 100 <= lo0;
+  inv_hi : hi0 < 2 ^ 60;
+}.
+
+(* the party [other s t] accepted fee [y] and completed the close; its
+   matching offer is in flight to [mover s t], which signed [y] earlier *)
+Record accepted (s : system) (t : bool) (y : Z) : Prop := mkAcc {
+  acc_err : sys_err s = None;
+  acc_msg : sys_msg s = Some (t, y);
+  acc_fin : n_state (other s t) = NFinished;
+  acc_fee : n_closed_fee (other s t) = Some y;
+  acc_pri : In y (n_prior (other s t));
+  acc_st : n_state (mover s t) = NFeeNegotiation;
+  acc_tap : n_taproot (mover s t) = false;
+  acc_mpri : In y (n_prior (mover s t));
+}.
+
+Definition ratchet_rel (x y x' : Z) : Prop :=
+  (x < y /\ x' = x + x / 10 /\ x + x * 3 / 10 < y) \/
+  (y < x /\ x' = x - x / 10 /\ y < x - x * 3 / 10).
+
+Lemma inv_step lo0 hi0 s t x y :
+  neg_inv lo0 hi0 s t x y ->
+  sys_rounds (sys_step s) = S (sys_rounds s) /\
+  ((exists x', neg_inv lo0 hi0 (sys_step s) (negb t) y x' /\ ratchet_rel x y x') \/
+   accepted (sys_step s) (negb t) y).
+Proof.
+  intros I. destruct I.
+  assert (Fx : fee_ok x) by (unfold fee_ok; lia).
+  assert (Fy : fee_ok y) by (unfold fee_ok; lia).
+  unfold sys_step. rewrite inv_err0, inv_msg0.
+  destruct t; cbn [mover other negb] in *.
+  - (* delivered to the opener *)
+    pose proof (recv_cases (sys_open s) x y hi0 inv_so0 inv_to0 inv_last0 Fx Fy
+                  ltac:(lia) ltac:(lia) ltac:(intros; lia) inv_ao0) as R.
+    inversion R as [c1 A1 A2 A3 A4 A5 E|c1 x' B1 B2 B3 B4 B5 B6 B7 B8 B9 E];
+      cbn; (split; [reflexivity|]).
+    + right. constructor; cbn [mover other sys_err sys_msg sys_open sys_resp]; auto.
+    + left. exists x'. split; [|exact B9].
+      assert (lo0 <= x' <= hi0).
+      { destruct B9 as [(K1 & K2 & K3)|(K1 & K2 & K3)].
+        - pose proof (ratchet_progress_up x y ltac:(lia) K1 K3) as K4. cbv zeta in K4. lia.
+        - pose proof (ratchet_progress_down x y ltac:(lia) K1 K3) as K4. cbv zeta in K4. lia. }
+      constructor; cbn [mover other sys_err sys_msg sys_open sys_resp negb]; auto; try congruence; lia.
+  - (* delivered to the other party *)
+    pose proof (recv_cases (sys_resp s) x y hi0 inv_sr0 inv_tr0 inv_last0 Fx Fy
+                  ltac:(lia) ltac:(lia) ltac:(intros; congruence) inv_ar0) as R.
+    inversion R as [c1 A1 A2 A3 A4 A5 E|c1 x' B1 B2 B3 B4 B5 B6 B7 B8 B9 E];
+      cbn; (split; [reflexivity|]).
+    + right. constructor; cbn [mover other sys_err sys_msg sys_open sys_resp]; auto.
+    + left. exists x'. split; [|exact B9].
+      assert (lo0 <= x' <= hi0).
+      { destruct B9 as [(K1 & K2 & K3)|(K1 & K2 & K3)].
+        - pose proof (ratchet_progress_up x y ltac:(lia) K1 K3) as K4. cbv zeta in K4. lia.
+        - pose proof (ratchet_progress_down x y ltac:(lia) K1 K3) as K4. cbv zeta in K4. lia. }
+      constructor; cbn [mover other sys_err sys_msg sys_open sys_resp negb]; auto; try congruence; lia.
+Qed.
+
+Lemma recv_matching c y :
+  n_state c = NFeeNegotiation -> n_taproot c = false -> In y (n_prior c) ->
+  receive_closing_signed c y = inr (set_state c NFinished (Some y), Some y).
+Proof.
+  intros Hs Ht Hp. unfold receive_closing_signed. rewrite Hs, Ht. cbn [andb negb].
+  apply mem_fee_In in Hp. rewrite Hp. reflexivity.
+Qed.
+
+Lemma recv_finished c y :
+  n_state c = NFinished -> receive_closing_signed c y = inr (c, None).
+Proof. intros Hs. unfold receive_closing_signed. rewrite Hs. reflexivity. Qed.
+
+Lemma step_deliver s t y c1 reply :
+  sys_err s = None -> sys_msg s = Some (t, y) ->
+  receive_closing_signed (mover s t) y = inr (c1, reply) ->
+  sys_step s = mkSys (if t then c1 else sys_open s) (if t then sys_resp s else c1)
+                     (option_map (fun f => (negb t, f)) reply) None
+                     (S (sys_rounds s)) (sys_trace s ++ [y]).
+Proof.
+  intros He Hm Hr. unfold sys_step. rewrite He, Hm. unfold mover in Hr. rewrite Hr. reflexivity.
+Qed.
+
+Lemma accepted_finish s t y :
+  accepted s t y ->
+  let s2 := sys_step (sys_step s) in
+  agreed_on s2 y /\ sys_msg s2 = None /\ sys_rounds s2 = S (S (sys_rounds s)).
+Proof.
+  intros A. destruct A. cbv zeta.
+  rewrite (step_deliver s t y _ _ acc_err0 acc_msg0
+             (recv_matching _ _ acc_st0 acc_tap0 acc_mpri0)).
+  cbn [option_map].
+  match goal with |- context [sys_step ?S1] => set (s1 := S1) end.
+  assert (F : receive_closing_signed (mover s1 (negb t)) y = inr (mover s1 (negb t), None)).
+  { apply recv_finished. subst s1. destruct t; cbn [mover other negb sys_open sys_resp] in *; auto. }
+  rewrite (step_deliver s1 (negb t) y _ _ eq_refl eq_refl F).
+  subst s1. destruct t; cbn [mover other negb sys_open sys_resp sys_msg sys_rounds option_map] in *;
+    unfold agreed_on; cbn; repeat split; auto.
+Qed.
+
+Lemma step_stable s : sys_msg s = None -> sys_step s = s.
+Proof. intros H. unfold sys_step. rewrite H. destruct (sys_err s); reflexivity. Qed.
+
+Lemma run_stable k s : sys_msg s = None -> sys_run k s = s.
+Proof.
+  induction k; cbn; auto. intros H. rewrite (step_stable s H). auto.
+Qed.
+
+Lemma run_add j k s : sys_run (j + k) s = sys_run k (sys_run j s).
+Proof. revert s. induction j; cbn; auto. Qed.
+
+Lemma ratchet_shrinks x y x' :
+  100 <= x -> 100 <= y -> ratchet_rel x y x' ->
+  0 < Z.min y x' /\ 0 < Z.max y x' /\
+  1091 * Z.max y x' * Z.min x y <= 1000 * Z.max x y * Z.min y x'.
+Proof.
+  intros Hx Hy [(K1 & K2 & K3)|(K1 & K2 & K3)].
+  - pose proof (ratchet_progress_up x y Hx K1 K3) as K4. cbv zeta in K4. rewrite <- K2 in K4.
+    rewrite (Z.max_l y x'), (Z.min_r y x'), (Z.min_l x y), (Z.max_r x y) by lia.
+    repeat split; try lia.
+    replace (1091 * y * x) with (y * (1091 * x)) by ring.
+    replace (1000 * y * x') with (y * (1000 * x')) by ring.
+    apply Z.mul_le_mono_nonneg_l; lia.
+  - pose proof (ratchet_progress_down x y Hy K1 K3) as K4. cbv zeta in K4. rewrite <- K2 in K4.
+    rewrite (Z.max_r y x'), (Z.min_l y x'), (Z.min_r x y), (Z.max_l x y) by lia.
+    repeat split; try lia.
+    replace (1091 * x' * y) with (y * (1091 * x')) by ring.
+    replace (1000 * x * y) with (y * (1000 * x)) by ring.
+    apply Z.mul_le_mono_nonneg_l; lia.
+Qed.
+
+Lemma ratchet_not_close x y x' :
+  100 <= x -> 100 <= y -> ratchet_rel x y x' ->
+  ~ close_enough 0 (Z.min x y) (Z.max x y).
+Proof.
+  unfold close_enough. cbn [Z.of_nat]. rewrite !Z.pow_0_r, !Z.mul_1_r.
+  intros Hx Hy [(K1 & K2 & K3)|(K1 & K2 & K3)] HC;
+    pose proof (Z.div_mod (x * 3) 10 ltac:(lia));
+    pose proof (Z.mod_pos_bound (x * 3) 10 ltac:(lia)); lia.
+Qed.
+
+Lemma neg_run lo0 hi0 n : forall s t x y,
+  neg_inv lo0 hi0 s t x y ->
+  close_enough n (Z.min x y) (Z.max x y) ->
+  exists k f, (k <= n)%nat /\ lo0 <= f <= hi0 /\
+    let s' := sys_run (k + 3) s in
+    agreed_on s' f /\ sys_msg s' = None /\ sys_rounds s' = (sys_rounds s + k + 3)%nat.
+Proof.
+  induction n as [|n IH]; intros s t x y I HC;
+    destruct (inv_step _ _ _ _ _ _ I) as (HR & [(x' & I' & RR)|A]).
+  - exfalso. destruct I. apply (ratchet_not_close x y x'); auto; lia.
+  - exists 0%nat, y. destruct I.
+    destruct (accepted_finish _ _ _ A) as (G1 & G2 & G3). cbv zeta in *.
+    cbn [plus sys_run].
+    split; [lia|]. split; [lia|]. split; [exact G1|]. split; [exact G2|].
+    rewrite G3, HR. lia.
+  - destruct I as [? ? ? ? ? ? ? ? ? ? ? ? ? ? Ix Iy Ilo Ihi].
+    destruct (ratchet_shrinks x y x' ltac:(lia) ltac:(lia) RR) as (P1 & P2 & P3).
+    assert (HC' : close_enough n (Z.min y x') (Z.max y x')).
+    { eapply close_enough_step; [| | | |exact P3|exact HC]; lia. }
+    destruct (IH _ _ _ _ I' HC') as (k & f & Hk & Hf & G). cbv zeta in G.
+    destruct G as (G1 & G2 & G3).
+    exists (S k), f. cbn [plus sys_run].
+    split; [lia|]. split; [lia|]. split; [exact G1|]. split; [exact G2|].
+    rewrite G3, HR. lia.
+  - exists 0%nat, y. destruct I.
+    destruct (accepted_finish _ _ _ A) as (G1 & G2 & G3). cbv zeta in *.
+    cbn [plus sys_run].
+    split; [lia|]. split; [lia|]. split; [exact G1|]. split; [exact G2|].
+    rewrite G3, HR. lia.
+Qed.
+
